@@ -310,8 +310,8 @@ def tag_replay_model(calls, art, acc, counters):
         key = ("ext", canon(T.name))
         sh.write(1, np.array([[offs[ti], offs[ti] + size]], dtype=np.int64), key)
 
-    for ti in sg.inputs:
-        tag_ext(ti)
+    for ti in list(sg.inputs) + [k_ for k_, T_ in enumerate(sg.tensors) if getattr(T_, "is_variable", False) and T_.data is None and k_ not in sg.inputs]:
+        tag_ext(ti)  # graph inputs and persistent state
     npu_by_index = {n.op_index: n for n in art.npu_ops}
     findings = []
     for k, op in enumerate(sg.ops):
